@@ -43,7 +43,6 @@ def main(argv=None):
     p.add_argument('--out', required=True)
     p.add_argument('--replay', default=None)
     a = p.parse_args(argv)
-    sys.setrecursionlimit(10000)
     from vmon import mon
     path = mon.assert_repo()
     ctx = Ctx(a)
